@@ -6,9 +6,9 @@ import (
 	"context"
 	"errors"
 	"fmt"
+	"math/big"
 	"os"
 	"path/filepath"
-	"sort"
 	"sync"
 	"testing"
 	"time"
@@ -16,10 +16,14 @@ import (
 	"github.com/nspcc-dev/neo-go/pkg/config"
 	"github.com/nspcc-dev/neo-go/pkg/core"
 	"github.com/nspcc-dev/neo-go/pkg/core/native/noderoles"
+	"github.com/nspcc-dev/neo-go/pkg/core/state"
 	"github.com/nspcc-dev/neo-go/pkg/core/transaction"
 	"github.com/nspcc-dev/neo-go/pkg/crypto/keys"
+	"github.com/nspcc-dev/neo-go/pkg/encoding/address"
 	"github.com/nspcc-dev/neo-go/pkg/services/notary"
 	"github.com/nspcc-dev/neo-go/pkg/smartcontract"
+	"github.com/nspcc-dev/neo-go/pkg/util"
+	"github.com/nspcc-dev/neo-go/pkg/vm/stackitem"
 	"github.com/nspcc-dev/neo-go/pkg/wallet"
 	"github.com/nspcc-dev/neofs-contract/contracts"
 	"github.com/nspcc-dev/neofs-contract/deploy"
@@ -69,21 +73,33 @@ func isKnownTx(err error) bool {
 	return errors.Is(err, core.ErrAlreadyExists) || errors.Is(err, core.ErrAlreadyInPool)
 }
 
-type c13E2E struct {
-	N           int               `json:"n"`
-	Blocks      int               `json:"blocks_used"`
-	Budget      int               `json:"block_budget"`
-	Returned    map[int]string    `json:"deploy_returned"` // member -> "" (nil) or error
-	Notary      bool              `json:"notary_role_is_committee"`
-	Alphabet    bool              `json:"alphabet_role_is_committee"`
-	NNSID1      bool              `json:"nns_has_id_1"`
-	Contracts   int               `json:"deployed_contracts"`
-	Names       map[string]string `json:"neofs_zone"`
-	Sent        int               `json:"transactions_sent"`
-	RerunSent   int               `json:"rerun_transactions_sent"`
-	RerunOK     bool              `json:"rerun_all_returned_nil"`
-	RerunBlocks int               `json:"rerun_blocks"`
+type c13E2EOpt struct {
+	N            int   `json:"n"`
+	Budget       int   `json:"block_budget"`
+	StartDelay   []int `json:"start_delay_blocks"` // per member
+	CancelMember int   `json:"cancelled_member"`   // -1: nobody
+	CancelAt     int   `json:"cancelled_at_block"` // blocks after the start
+	RestartAfter int   `json:"restarted_after_blocks"`
 }
+
+type c13E2E struct {
+	Opt         c13E2EOpt      `json:"run"`
+	Blocks      int            `json:"blocks_used"`
+	Returned    map[int]string `json:"deploy_returned"` // member -> "" (nil) or error
+	Cancelled   string         `json:"cancelled_run_returned,omitempty"`
+	Notary      bool           `json:"notary_role_is_committee"`
+	Alphabet    bool           `json:"alphabet_role_is_committee"`
+	NNSID1      bool           `json:"nns_has_id_1"`
+	Contracts   int            `json:"deployed_contracts"`
+	Names       map[string]int `json:"neofs_zone_resolves_to_supplied_executable"`
+	Distinct    bool           `json:"names_resolve_to_distinct_contracts"`
+	Sent        int            `json:"transactions_and_notary_requests_sent"`
+	RerunNil    int            `json:"rerun_returned_nil"`
+	RerunSent   int            `json:"rerun_transactions_and_notary_requests_sent"`
+	RerunBlocks int            `json:"rerun_blocks"`
+}
+
+var c13Names = []string{"proxy", "audit", "netmap", "balance", "reputation", "neofsid", "container"}
 
 func (x *c13Net) deployPrm(member int, fs []contracts.Contract) deploy.Prm {
 	vAcc := wallet.NewAccountFromPrivateKey(x.accs[member].PrivateKey())
@@ -126,36 +142,67 @@ func (x *c13Net) roleIsCommittee(r noderoles.Role) bool {
 	return true
 }
 
+func (x *c13Net) waitHeight(ctx context.Context, h uint32) {
+	for x.bc.BlockHeight() < h && ctx.Err() == nil {
+		time.Sleep(2 * time.Millisecond)
+	}
+}
+
 // runDeploy runs Deploy for every member concurrently with harness-produced blocks.
-func (x *c13Net) runDeploy(fs []contracts.Contract, budget int, blockMs int) (map[int]string, int) {
+func (x *c13Net) runDeploy(fs []contracts.Contract, opt c13E2EOpt) (map[int]string, string, int) {
 	ctx, cancel := context.WithCancel(context.Background())
 	defer cancel()
 	ret := map[int]string{}
+	cancelled := ""
 	var mu sync.Mutex
 	var wg sync.WaitGroup
+	start := x.bc.BlockHeight()
+	put := func(m int, err error) {
+		mu.Lock()
+		if err == nil {
+			ret[m] = ""
+		} else {
+			ret[m] = err.Error()
+		}
+		mu.Unlock()
+	}
 	for m := 0; m < x.n; m++ {
 		wg.Add(1)
 		go func(m int) {
 			defer wg.Done()
-			err := deploy.Deploy(ctx, x.deployPrm(m, fs))
-			mu.Lock()
-			if err == nil {
-				ret[m] = ""
-			} else {
-				ret[m] = err.Error()
+			if m < len(opt.StartDelay) {
+				x.waitHeight(ctx, start+uint32(opt.StartDelay[m]))
 			}
+			if m != opt.CancelMember {
+				put(m, deploy.Deploy(ctx, x.deployPrm(m, fs)))
+				return
+			}
+			// this member's process is stopped at an arbitrary block and started again
+			mctx, mcancel := context.WithCancel(ctx)
+			done := make(chan error, 1)
+			go func() { done <- deploy.Deploy(mctx, x.deployPrm(m, fs)) }()
+			go func() { x.waitHeight(ctx, start+uint32(opt.CancelAt)); mcancel() }()
+			err := <-done
+			mcancel()
+			if err == nil {
+				put(m, nil) // finished before the cancellation
+				return
+			}
+			mu.Lock()
+			cancelled = err.Error()
 			mu.Unlock()
+			x.waitHeight(ctx, x.bc.BlockHeight()+uint32(opt.RestartAfter))
+			put(m, deploy.Deploy(ctx, x.deployPrm(m, fs)))
 		}(m)
 	}
 	back := make(chan struct{})
 	go func() { wg.Wait(); close(back) }()
-	start := x.bc.BlockHeight()
 loop:
-	for int(x.bc.BlockHeight()-start) < budget {
+	for int(x.bc.BlockHeight()-start) < opt.Budget {
 		select {
 		case <-back:
 			break loop
-		case <-time.After(time.Duration(blockMs) * time.Millisecond):
+		case <-time.After(c13BlockMs * time.Millisecond):
 			x.addBlock()
 		}
 	}
@@ -171,69 +218,197 @@ loop:
 	for k, v := range ret {
 		out[k] = v
 	}
-	return out, used
+	return out, cancelled, used
 }
 
-func c13RunE2E(t testing.TB, n int, budget int, salt int64) *c13E2E {
+// resolveName reads <name>.neofs and returns the contract it points to (nil if none).
+func (x *c13Net) resolveName(aux *c13Chain, nns util.Uint160, name string) *state.Contract {
+	res, err := aux.InvokeFunction(nns, "resolve", []smartcontract.Parameter{
+		{Type: smartcontract.StringType, Value: name + ".neofs"}, {Type: smartcontract.IntegerType, Value: big.NewInt(16)}}, nil)
+	if err != nil || res.State != "HALT" || len(res.Stack) != 1 {
+		return nil
+	}
+	arr, ok := res.Stack[0].Value().([]stackitem.Item)
+	if !ok || len(arr) != 1 {
+		return nil
+	}
+	b, err := arr[0].TryBytes()
+	if err != nil {
+		return nil
+	}
+	h, err := util.Uint160DecodeStringLE(string(b))
+	if err != nil {
+		h, err = address.StringToUint160(string(b))
+		if err != nil {
+			return nil
+		}
+	}
+	return x.bc.GetContractState(h)
+}
+
+func c13RunE2E(t testing.TB, opt c13E2EOpt, salt int64) *c13E2E {
+	n := opt.N
 	x := newC13Net(t, n, salt)
 	x.withNotary()
 	x.fund(2000_0000_0000)
 	fs, err := contracts.GetFS()
 	require.NoError(t, err)
-	res := &c13E2E{N: n, Budget: budget, Names: map[string]string{}}
-	res.Returned, res.Blocks = x.runDeploy(fs, budget, c13BlockMs)
+	res := &c13E2E{Opt: opt, Names: map[string]int{}}
+	res.Returned, res.Cancelled, res.Blocks = x.runDeploy(fs, opt)
 	res.Notary = x.roleIsCommittee(noderoles.P2PNotary)
 	res.Alphabet = x.roleIsCommittee(noderoles.NeoFSAlphabet)
+	var nns util.Uint160
 	if h, err := x.bc.GetContractScriptHash(1); err == nil {
+		nns = h
 		res.NNSID1 = x.bc.GetContractState(h).Manifest.Name == "NameService"
 	}
-	for id := int32(1); id < 64; id++ {
-		h, err := x.bc.GetContractScriptHash(id)
-		if err != nil {
+	for id := int32(1); id < 200; id++ {
+		if _, err := x.bc.GetContractScriptHash(id); err != nil {
 			break
 		}
 		res.Contracts++
-		res.Names[fmt.Sprint(id)] = x.bc.GetContractState(h).Manifest.Name
+	}
+	aux := x.client(-1)
+	seen := map[util.Uint160]bool{}
+	res.Distinct = true
+	check := func(name string, want contracts.Contract) {
+		res.Names[name] = 0
+		cs := x.resolveName(aux, nns, name)
+		if cs == nil {
+			return
+		}
+		if seen[cs.Hash] {
+			res.Distinct = false
+		}
+		seen[cs.Hash] = true
+		if cs.NEF.Checksum == want.NEF.Checksum && cs.Manifest.Name == want.Manifest.Name {
+			res.Names[name] = 1
+		}
+	}
+	if res.NNSID1 {
+		for i, nm := range c13Names {
+			check(nm, fs[1+i])
+		}
+		for i := 0; i < n; i++ {
+			check(fmt.Sprintf("alphabet%d", i), fs[8])
+		}
 	}
 	x.mu.Lock()
-	res.Sent = len(x.sent)
+	res.Sent = len(x.sent) + x.notaryReqs
 	x.sent = nil
+	x.notaryReqs = 0
 	x.mu.Unlock()
 	// idempotent re-run on the finished chain
-	if len(res.Returned) == n {
-		ok := true
-		for _, e := range res.Returned {
-			ok = ok && e == ""
-		}
-		if ok {
-			ret, used := x.runDeploy(fs, 60, c13BlockMs)
-			res.RerunBlocks = used
-			res.RerunOK = len(ret) == n
-			for _, e := range ret {
-				res.RerunOK = res.RerunOK && e == ""
+	allNil := len(res.Returned) == n
+	for _, e := range res.Returned {
+		allNil = allNil && e == ""
+	}
+	if allNil {
+		ret, _, used := x.runDeploy(fs, c13E2EOpt{N: n, Budget: 60, CancelMember: -1})
+		res.RerunBlocks = used
+		for _, e := range ret {
+			if e == "" {
+				res.RerunNil++
 			}
-			x.mu.Lock()
-			res.RerunSent = len(x.sent)
-			if os.Getenv("VERIF_C13_LOG") != "" {
-				for _, s := range x.sent {
-					fmt.Printf("RERUN-SENT m%d %+v err=%v\n", s.Member, c13Classify(s.Tx), s.Err)
-				}
-			}
-			x.mu.Unlock()
 		}
+		x.mu.Lock()
+		res.RerunSent = len(x.sent) + x.notaryReqs
+		if os.Getenv("VERIF_C13_LOG") != "" {
+			for _, s := range x.sent {
+				fmt.Printf("RERUN-SENT m%d %+v err=%v\n", s.Member, c13Classify(s.Tx), s.Err)
+			}
+		}
+		x.mu.Unlock()
 	}
 	x.close()
 	return res
 }
 
-func TestC13E2E(t *testing.T) {
-	for _, n := range []int{1, 3} {
-		r := c13RunE2E(t, n, 400, int64(7000+n))
-		ks := make([]string, 0)
-		for k, v := range r.Names {
-			ks = append(ks, k+"="+v)
+// coq prints the observation as a (n, final_obs) case.
+func (r *c13E2E) coq() string {
+	nilCount := 0
+	for _, e := range r.Returned {
+		if e == "" {
+			nilCount++
 		}
-		sort.Strings(ks)
-		fmt.Printf("E2E %+v\n  %v\n", *r, ks)
 	}
+	var names []string
+	for i, nm := range c13Names {
+		names = append(names, fmt.Sprintf("(%d%%nat, %d%%nat)", i, r.Names[nm]))
+	}
+	for i := 0; i < r.Opt.N; i++ {
+		names = append(names, fmt.Sprintf("(%d%%nat, %d%%nat)", 100+i, r.Names[fmt.Sprintf("alphabet%d", i)]))
+	}
+	return fmt.Sprintf("(%d%%nat, mkFinal %d %s %s %s %d %s %s %d %d)", r.Opt.N, nilCount, BoolLit(r.Notary), BoolLit(r.Alphabet),
+		BoolLit(r.NNSID1), r.Contracts, ListLit(names), BoolLit(r.Distinct), r.RerunNil, r.RerunSent)
+}
+
+// c13EndToEnd runs the end-to-end scenarios; returns Coq definitions and the extra term of M.
+func c13EndToEnd(c *c13) (string, string) {
+	r := Rng(1303)
+	type sc struct {
+		opt  c13E2EOpt
+		note string
+	}
+	delays := func(n, max int) []int {
+		d := make([]int, n)
+		for i := range d {
+			d[i] = r.Intn(max + 1)
+		}
+		return d
+	}
+	scs := []sc{
+		{c13E2EOpt{N: 1, Budget: 300, CancelMember: -1}, "single member"},
+		{c13E2EOpt{N: 3, Budget: 400, CancelMember: -1, StartDelay: delays(3, 6)}, "arbitrary start order"},
+		{c13E2EOpt{N: 3, Budget: 500, CancelMember: 1 + r.Intn(2), CancelAt: 5 + r.Intn(40), RestartAfter: 1 + r.Intn(6)}, "a signer is stopped and restarted"},
+		{c13E2EOpt{N: 4, Budget: 700, CancelMember: 0, CancelAt: 5 + r.Intn(40), RestartAfter: 1 + r.Intn(6), StartDelay: delays(4, 4)}, "the leader is stopped and restarted"},
+	}
+	if Tier() == "thorough" {
+		for n := 3; n <= 7; n++ {
+			scs = append(scs, sc{c13E2EOpt{N: n, Budget: 900, CancelMember: r.Intn(n), CancelAt: 3 + r.Intn(60), RestartAfter: 1 + r.Intn(8), StartDelay: delays(n, 8)}, "thorough"})
+			late := delays(n, 3)
+			late[n-1] = 40 // a minority of non-leading members absent during the Notary bootstrap
+			scs = append(scs, sc{c13E2EOpt{N: n, Budget: 900, CancelMember: -1, StartDelay: late}, "last member absent during bootstrap"})
+		}
+		scs = append(scs, sc{c13E2EOpt{N: 2, Budget: 150, CancelMember: -1}, "n=2 (F7)"})
+	}
+	var fcases []string
+	for i, s := range scs {
+		res := c13RunE2E(c.t, s.opt, int64(7000+i))
+		c.st.Histories++
+		c.st.Evaluations += res.Sent
+		c.st.OpHistogram["deploy-run"]++
+		nilCount := 0
+		for _, e := range res.Returned {
+			if e == "" {
+				nilCount++
+			}
+		}
+		out := "converged"
+		switch {
+		case nilCount == s.opt.N:
+			fcases = append(fcases, "(* "+s.note+" *) "+res.coq())
+			c.nontr++
+			ok := res.Notary && res.Alphabet && res.NNSID1 && res.Contracts == 8+s.opt.N && res.Distinct && res.RerunNil == s.opt.N && res.RerunSent == 0
+			for _, v := range res.Names {
+				ok = ok && v == 1
+			}
+			if !ok {
+				out = "wrong-final-state"
+				c.st.AddViolation("deploy.Deploy returned nil for every member but the final state is not the expected one, or the re-run was not idle", res)
+			}
+		case s.opt.N == 2 && nilCount == 0 && !res.Notary && res.NNSID1:
+			out = "stuck-in-notary-bootstrap(F7)"
+			c.st.AddKnown("C13/notary-bootstrap-indices")
+		default:
+			out = "not-converged"
+			c.st.AddViolation("deploy.Deploy did not return nil for every member within the block budget", res)
+		}
+		c.st.OutcomeHistogram["deploy:"+out]++
+		c.st.Extra[fmt.Sprintf("deploy #%d (%s)", i, s.note)] = res
+		if os.Getenv("VERIF_C13_LOG") != "" {
+			fmt.Printf("E2E %s: %s %+v\n", s.note, out, *res)
+		}
+	}
+	return "Definition fcases : list (nat * final_obs) := " + ListLit(fcases) + ".\n", " ++ map check_final fcases"
 }
